@@ -37,17 +37,23 @@ pub fn lattice_spaces<O: Oracle + Clone + 'static>(tier: Tier, oracle: O, label:
         v.push(Box::new(Pairs::new(p, pairs, oracle.clone(), label)));
     }
     if tier == Tier::Thorough {
-        let tiny = tiny_skeletons();
-        for k in [4usize, 3] {
-            // ELF64-LSB tables-first and ELF32-MSB linker-order
-            let p = PreparedSkeleton::new(tiny[k].clone(), &all_sites);
+        // every tiny-full skeleton: all coupled pairs
+        for sk in tiny_skeletons() {
+            let p = PreparedSkeleton::new(sk, &all_sites);
             let pairs = coupled_pairs(&p, false);
             v.push(Box::new(Pairs::new(p, pairs, oracle.clone(), label)));
+        }
+        // k = 3 on the fields that locate and size the header tables (incl. the shdr[0] escapes)
+        const LOCATORS: [&str; 10] = ["ehdr.e_phoff", "ehdr.e_shoff", "ehdr.e_phentsize", "ehdr.e_phnum", "ehdr.e_shentsize", "ehdr.e_shnum", "ehdr.e_shstrndx", "shdr[0].sh_size", "shdr[0].sh_link", "shdr[0].sh_info"];
+        for sk in extnum_shapes().into_iter().chain(small_shapes().into_iter().filter(|s| s.name.starts_with("shdrs-only"))) {
+            let p = PreparedSkeleton::new(sk, &header_sites);
+            let t = triples_of(&p, &LOCATORS);
+            v.push(Box::new(Triples::new(p, t, oracle.clone(), label)));
         }
     }
     let text = match tier {
         Tier::Quick => "k<=1: every site (header, table and deep body sites) of 8 tiny-full + 12 small + 4 extended-numbering skeletons, ehdr sites of the 10 samples; k=2: ehdr x (ehdr | shdr[0]) pairs of the small and extended-numbering shapes",
-        Tier::Thorough => "k<=1: as quick plus every shdr/phdr field of the 10 samples; k=2: all header-field pairs of the small and extended-numbering shapes, and all coupled pairs (same header; ehdr x any header; body word x own header) of two tiny-full skeletons",
+        Tier::Thorough => "k<=1: as quick plus every shdr/phdr field of the 10 samples; k=2: all header-field pairs of the small and extended-numbering shapes, and all coupled pairs (same header; ehdr x any header; body word x own header) of all 8 tiny-full skeletons; k=3: all triples of the 10 table-locating fields (e_phoff, e_shoff, e_*entsize, e_*num, e_shstrndx, shdr[0].sh_size/sh_link/sh_info) of the extended-numbering and shdrs-only shapes",
     };
     (v, LatticeBounds { text: text.to_string() })
 }
